@@ -51,3 +51,18 @@ pub open spec fn gens_prefix_agree(a: RangeParameters<P>, b: RangeParameters<P>)
     &&& forall|q: int| 0 <= q < ga.len() && q < gb.len() ==> *(#[trigger] ga[q]) == *gb[q]
     &&& forall|q: int| 0 <= q < ha.len() && q < hb.len() ==> *(#[trigger] ha[q]) == *hb[q]
 }
+// C03 (the "refused only if" direction): what a batch must satisfy for the consistency check to have no reason to refuse it
+pub open spec fn batch_consistent(st: Seq<RangeStatement<P>>, pr: Seq<RangeProof<P>>) -> bool {
+    &&& st.len() >= 1 && pr.len() == st.len()
+    &&& st[0].generators.pc_gens.g_base_vec@.len() == st[0].generators.pc_gens.extension_degree as usize
+    &&& forall|i: int| 0 <= i < st.len() ==> {
+            &&& (#[trigger] pr[i]).d1@.len() == st[0].generators.pc_gens.extension_degree as usize
+            &&& st[i].generators.pc_gens.extension_degree == st[0].generators.pc_gens.extension_degree
+            &&& st[i].generators.bp_gens.gens_capacity == st[0].generators.bp_gens.gens_capacity
+            &&& st[i].generators.pc_gens.g_base_vec@ == st[0].generators.pc_gens.g_base_vec@
+            &&& st[i].generators.pc_gens.h_base == st[0].generators.pc_gens.h_base
+        }
+    &&& forall|i: int, q: int| 0 <= i < st.len() && 0 <= q < st[i].minimum_value_promises@.len() ==>
+            #[trigger] promise_ok(st[i].minimum_value_promises@[q], st[0].generators.bp_gens.gens_capacity)
+    &&& forall|i: int, j: int| 0 <= i < st.len() && 0 <= j < st.len() ==> gens_prefix_agree((#[trigger] st[i]).generators, (#[trigger] st[j]).generators)
+}
